@@ -16,7 +16,7 @@ import threading
 import vlib
 import langlib
 
-NAMED = {"MyInt", "MyStr", "MyFloat", "MyBool", "Duration", "MyU64", "MyU8", "MyI8", "MyF32", "MyList", "MyMap", "Rec", "Hid"}
+NAMED = {"MyInt", "MyStr", "MyFloat", "MyBool", "Duration", "MyU64", "MyU8", "MyI8", "MyF32", "MyList", "MyMap", "Rec", "Hid", "MyStrs"}
 JVM = {"JAVA_TOOL_OPTIONS": "-XX:ParallelGCThreads=2"}  # many single-worker TLC processes run side by side
 LINE = re.compile(r'^<<"(MISMATCH|SOFT|HARNESS)", (-?\d+), "(.*)">>$')
 
